@@ -730,7 +730,7 @@ func TestCheck(t *testing.T) {
 	rep.Require("runs_unknown_answered_by_handler", 5)
 	rep.Require("runs_unknown_without_handler_rejected", 5)
 	k := &checker{t: t, rep: rep}
-	n := int64(cfg.Pick(50, 2000))
+	n := int64(cfg.Pick(150, 2000))
 	rep.Cases(n, func(idx int64, rng *mon.Rand) {
 		if k.dead {
 			return
